@@ -24,7 +24,7 @@ func init() {
 		Level: "exploration",
 		Rule: "case = one encoder instance (null|lz4|zstd from encoder.New, level = every supported level 1..12 / 1..19 or the default; a few out-of-range levels are recorded only) reused for a sequence of " +
 			"Compress/Decompress calls. Each call draws data (size 0..300 KiB quick / ..1 MiB thorough at the 4 KiB, 8 KiB, 64 KiB, 128 KiB boundaries; classes zeros/text/PRNG/PRNG+zeros/column/mixed/low-entropy) " +
-			"and a scratch buffer from {nil, len0cap0, len0 big cap, len 8192 cap 16384 junk-filled (what gpfile passes), len>bound, len 1, too small, random}. The destination is a recording writer; " +
+			"and a scratch buffer from {nil, len0cap0, len0 big cap, len 8192 cap 16384 junk-filled (what gpfile passes), len>bound, len 1, too small, capacity just above the input length, random}. The destination is a recording writer; " +
 			"the emitted bytes are decompressed by the same or a fresh instance from a file-like reader into an exactly sized poisoned buffer. " +
 			"Oracle: no error, reported n == bytes emitted, decompressed length and bytes == pristine copy of the input. " +
 			"The same case list runs in the cgo, CGO_ENABLED=0, goprobe_noliblz4, goprobe_nolibzstd builds and (cgo) under ASan and with checkptr instrumentation. " +
@@ -86,17 +86,18 @@ func (f *fileLikeReader) Read(p []byte) (int, error) {
 
 // Scratch buffer classes.
 const (
-	scNil      = "nil"
-	scEmpty    = "len0cap0"
-	scLen0Big  = "len0capbig"
-	scGpfile   = "len8192cap16384"
-	scBigLen   = "len>bound"
-	scLen1     = "len1"
-	scTooSmall = "toosmall"
-	scRandom   = "random"
+	scNil       = "nil"
+	scEmpty     = "len0cap0"
+	scLen0Big   = "len0capbig"
+	scGpfile    = "len8192cap16384"
+	scBigLen    = "len>bound"
+	scLen1      = "len1"
+	scTooSmall  = "toosmall"
+	scJustAbove = "just_above_len" // capacity a few bytes above the input length: holds the input but not the compress bound
+	scRandom    = "random"
 )
 
-var scratchClasses = []string{scNil, scEmpty, scLen0Big, scGpfile, scGpfile, scGpfile, scBigLen, scLen1, scTooSmall, scRandom}
+var scratchClasses = []string{scNil, scEmpty, scLen0Big, scGpfile, scGpfile, scGpfile, scBigLen, scLen1, scTooSmall, scJustAbove, scRandom}
 
 func makeScratch(r *rand.Rand, cls string, dataLen int) []byte {
 	junk := func(b []byte) []byte {
@@ -120,6 +121,9 @@ func makeScratch(r *rand.Rand, cls string, dataLen int) []byte {
 		return junk(make([]byte, bound+1+r.Intn(4096), 2*bound+8192))
 	case scLen1:
 		return junk(make([]byte, 1, 1+r.Intn(64)))
+	case scJustAbove:
+		n := dataLen + 1 + r.Intn(128)
+		return junk(make([]byte, r.Intn(n+1), n))
 	case scTooSmall:
 		n := 1 + r.Intn(dataLen/2+16)
 		return junk(make([]byte, r.Intn(n+1), n))
